@@ -245,16 +245,19 @@ theorem handlers_counterexample : ¬ no_ub_handlers_full := by
     that free nothing it is **proved** (`no_ub_handlers_keeping`); a claiming mouse handler together with handlers that
     drop the claiming window and its parent is the known finding (`handlers_counterexample`).
 
-  What the two open statements need beyond what is proved (Proof/LifeKeys.lean carries `1 + int i ≤ refcount i ≤
-  appRefs i + int i` through handlers that free nothing, with `Pres`: nothing is freed): (1) the invariant of the
-  frames with the stack discipline `int c > 0 → parent c = some p → int p > 0` and, for the windows the frames hold,
-  the exact count `refcount = appRefs + int` (proved so far for the root window only: `refcount_inv` (g)); (2) for the
-  destroy cascade the converse of `DropOk` (Proof/LifeDestroy.lean): a window that survives a cascade with a lower
-  count was a linked child of a window that died in it - `Casc` gives only `WEv` (count unchanged, or one less and
-  closed meanwhile) without naming the parent; with it a window held by a frame is untouched by every cascade a
-  handler can start, because a dying window is held by no frame and therefore has no child a frame holds; (3) `Pres`
-  replaced by "every window a frame holds stays alive", and the lemmas of Proof/LifeKeys.lean / LifeMouse.lean
-  (`runBinds_keep`, `keyLoop_keep`, `handleKeyBody_keep`, ...) redone over it. -/
+  What the two open statements need beyond what is proved.  Proved: through handlers that free nothing
+  Proof/LifeKeys.lean carries `1 + int i ≤ refcount i ≤ appRefs i + int i` (`int i` = references the frames hold on
+  window `i`; `Pres`: nothing is freed); between operations every live window's count is exactly the application's
+  tally (`refcount_inv` (g)), which rests on the converse of `DropOk` (`ConvOk`, Proof/LifeDestroy.lean: a window that
+  survives a cascade and is not among the dropped children keeps its count).  Missing: (1) the invariant of the frames
+  with the stack discipline `int c > 0 → parent c = some p → int p > 0` and the exact count `refcount = appRefs + int`
+  also for the windows the frames hold; (2) the protection lemma for the destroy cascade: started at a window no frame
+  holds it touches no window a frame holds (by induction along the cascade, a dying window having no child a frame
+  holds by the discipline) - then a handler's `tickit_window_unref` keeps the exact counts, because every dropped child
+  is held by the application (count ≥ 1, no frame holds it) so that `consume` and the cascade take the same reference;
+  (3) `Pres` replaced by "every window a frame holds stays alive" and the lemmas of Proof/LifeKeys.lean /
+  LifeMouse.lean (`runBinds_keep`, `keyLoop_keep`, `handleKeyBody_keep`, ...) redone over it.  For mouse events the
+  discipline fails exactly where a claim is returned past the frame of the claiming window's parent. -/
 
 /-- OPEN (statement only, no counterexample known; covered by correspondence: generator families `handlers`,
     `foreign`): key events delivered to window handlers with **any** actions - `tickit_window_unref` of their own window,
@@ -354,8 +357,10 @@ example : (runOps extracted {} [.newTerm 6 12 false, .win 0 ⟨0, 0, 4, 8⟩ 0, 
     terminal's count is the application's references plus one for a live root window, (c) every live window and
     every live render buffer holds at least one reference, (d) a freed window holds no pen, (e) no live window
     holds more references than the application has taken, (f) a live buffer's or string's count is the
-    application's tally, (g) the root window (from which no dying parent can take a reference) holds exactly the
-    references the application has taken. -/
+    application's tally, (g) every live window holds exactly the references the application has taken (its own tally:
+    create +1, ref +1, unref -1, and -1 when a destroyed parent takes the creation reference of a child still linked to
+    it - the converse of `DropOk`, `ConvOk` in Proof/LifeDestroy.lean, shows that nobody else loses a reference in a
+    cascade). -/
 theorem refcount_inv (lines cols : Int) (mock : Bool) (ops : List Op) (h : PlainHistory ops) :
     ∃ st, runOps extracted {} (.newTerm lines cols mock :: ops) = .ok st ∧
       (∀ (k : Nat) (p : Obj), st.pens[k]? = some p →
@@ -368,13 +373,13 @@ theorem refcount_inv (lines cols : Int) (mock : Bool) (ops : List Op) (h : Plain
       (∀ (i : Nat) (w : WinTree.Win), LiveW st.tree i w → w.refcount ≤ ((getX st i).appRefs : Int)) ∧
       (∀ (k : Nat) (b : RBObj), st.rbs[k]? = some b → b.freed = false → b.refcount = (b.appRefs : Int)) ∧
       (∀ (k : Nat) (s : StrObj), st.strs[k]? = some s → s.freed = false → 1 ≤ s.refcount ∧ s.refcount = (s.appRefs : Int)) ∧
-      (∀ (r : WinTree.Win), LiveW st.tree 0 r → r.refcount = ((getX st 0).appRefs : Int)) := by
+      (∀ (i : Nat) (w : WinTree.Win), LiveW st.tree i w → w.refcount = ((getX st i).appRefs : Int)) := by
   obtain ⟨st, hr, inv⟩ := no_ub_from_start lines cols mock ops h
   refine ⟨st, hr, inv.pens.rc, fun hf hl => inv.term_held hf (.inl hl), fun hf hl => (inv.term_free hf ?_).1, inv.rc,
     inv.rb_rc, fun i w hw hf => inv.dead_pen i w hw hf (by simp), fun i w hl => by have := (inv.wref i w hl).1; simpa using this,
-    fun k b hb hf => (inv.simple.1 k b hb hf).2, inv.simple.2, fun r hl => by
-      have h1 := (inv.wref 0 r hl).1
-      have h2 := (inv.wref 0 r hl).2 rfl
+    fun k b hb hf => (inv.simple.1 k b hb hf).2, inv.simple.2, fun i w hl => by
+      have h1 := (inv.wref i w hl).1
+      have h2 := (inv.wref i w hl).2 (Ghost.none_covers i)
       simp only [Ghost.none_win] at h1 h2
       omega⟩
   rintro (h' | h')
